@@ -153,6 +153,19 @@ def seed2_ok_tag(r, x0, x1, x2, y0, y1, y2):
     SEEDED.clear()
     SEEDED[seed] = {'u': 0.0, 'u2': 0.75, 'x': [x0, x1, x2]}
     SEEDED[other] = {'u': 0.0, 'u2': 0.75, 'x': [y0, y1, y2]}
+    if PIN.get('variant') == 'degree':
+        # same seed and arguments, another degree: a uniform draw of the second model lies inside ITS interval
+        # [runtime, runtime + degree * runtime], whatever a model of a larger degree drew before
+        try:
+            DelayModel(1.0, 'uniform', DelayModel.DelayDegree.HIGH, seed=seed).generate_delay(r, 3)
+            out5 = DelayModel(1.0, 'uniform', DelayModel.DelayDegree.LOW, seed=seed).generate_delay(r, 3)
+        except Exception as ex:
+            return f'C15/raises/{type(ex).__name__}/uniform'
+        if r >= 4:
+            wit.reach('delay-added')
+        if out5 < r or out5 * 4 > 5 * r:
+            return 'C15/not-deterministic/value-drawn-for-another-degree-returned/uniform'
+        return None
     try:
         out = DelayModel(1.0, dname, deg, seed=seed).generate_delay(r, 3)
         out4 = DelayModel(1.0, dname, deg, seed=other).generate_delay(r, 3)
@@ -261,10 +274,12 @@ def shards(tier, prop):
         out = [{'fn': 'gen_ok', 'pin': {'dist': k, 'deg': g, 'seed': sd, 'only': 'not-deterministic'}, 'cond_timeout': T}
                for (k, g, sd) in ((0, 1, 20), (1, 2, 0), (2, 0, 7), (0, 2, 0), (1, 0, 20), (2, 1, 0))]
         out += [{'fn': 'seed2_ok', 'pin': {'dist': k, 'deg': g, 'seed': sd}, 'cond_timeout': T} for (k, g, sd) in ((0, 1, 20), (1, 2, 0), (0, 0, 7))]
+        out.append({'fn': 'seed2_ok', 'pin': {'variant': 'degree', 'seed': 7}, 'cond_timeout': T})
         return out + [{'fn': 'gen_ok', 'pin': {'dist': 0, 'deg': 1}, 'cond_timeout': 30, 'twin': True}]
     out = [{'fn': 'gen_ok', 'pin': {'dist': k, 'deg': g, 'seed': (20, 0, 7)[(k + g) % 3]}, 'cond_timeout': T} for k in range(3) for g in range(4)]
     out += [{'fn': 'gen_ok', 'pin': {'dist': k, 'deg': 1, 'seed': 0}, 'cond_timeout': T} for k in range(3)]
     out += [{'fn': 'seed2_ok', 'pin': {'dist': k, 'deg': g, 'seed': sd}, 'cond_timeout': T} for (k, g, sd) in ((0, 1, 20), (1, 2, 0), (0, 2, 0)) + (((1, 1, 7),) if tier != 'quick' else ())]
+    out.append({'fn': 'seed2_ok', 'pin': {'variant': 'degree', 'seed': 20}, 'cond_timeout': T})
     out.append({'fn': 'seed2_ok', 'pin': {'dist': 0, 'deg': 1}, 'cond_timeout': 30, 'twin': True})
     out.append({'fn': 'flag_ok', 'cond_timeout': T})
     out.append({'fn': 'gen_ok', 'pin': {'dist': 0, 'deg': 1}, 'cond_timeout': 30, 'twin': True})
